@@ -126,12 +126,8 @@ def replay_harness(bsv, r, blocks, concretise=True):
         conc('BS_GRIDMEM[%d]' % k, 'struct vec_T')
     out += stmts
     stmts.clear()
-    for k in range(4):
-        for i2 in range(RCAP - 1):
-            if not concretise:
-                break
-            out.append('  __CPROVER_assume(!(%d + 1 < BS_GRIDMEM[%d].n) || BS_GRIDMEM[%d].d[%d] < BS_GRIDMEM[%d].d[%d]);'
-                       % (i2, k, k, i2, k, i2 + 1))
+    # (no sortedness assumption here: in the small instance BS_SORTED is defined from the contents, so a function that
+    #  requires a valid grid gets one, and a validation function gets arbitrary sequences)
     inputs = []
     args = []
     if fi.is_method and not fi.is_static and not fi.is_ctor:
@@ -198,8 +194,9 @@ def trace_values(trace_json, hname, names):
     for item in data:
         if isinstance(item, dict) and 'result' in item:
             for p in item['result']:
-                status = p.get('status')
-                if 'trace' in p:
+                if status != 'FAILURE':
+                    status = p.get('status')
+                if 'trace' in p and p.get('status') == 'FAILURE':
                     trace = p['trace']
     if trace is None:
         return status, None
